@@ -161,7 +161,7 @@ func checkC19(c *Ctx, r *Report) {
 			if add == nil {
 				return false
 			}
-			return isLoadOfField(opT + ".CreatedTime")(strip2(add.Common().Args[0])) && ttl(strip2(add.Common().Args[1]))
+			return isLoadOfField(opT+".CreatedTime")(strip2(add.Common().Args[0])) && ttl(strip2(add.Common().Args[1]))
 		}
 	}
 
@@ -246,11 +246,11 @@ func checkC19(c *Ctx, r *Report) {
 		r1.guard(pid, "return a peer ID", idRets, "ran", edgeBool(isLoadOfField(srvT+".ran"), true), nil)
 		okState := edgeCmp(func(b *ssa.BinOp) bool {
 			k, ok := constInt(b.Y)
-			return ok && b.Op == token.EQL && (k == stVerifyChallenge || k == stVerifyBearer) && isLoadOfField(srvT + ".state")(strip2(b.X))
+			return ok && b.Op == token.EQL && (k == stVerifyChallenge || k == stVerifyBearer) && isLoadOfField(srvT+".state")(strip2(b.X))
 		}, true)
 		r1.guard(pid, "return a peer ID", idRets, "state in {VerifyChallenge, VerifyBearer}", okState, nil)
 		for _, ret := range idRets {
-			r1.Check(isLoadOfField(opT + ".PeerID")(strip2(ret.(*ssa.Return).Results[0])), "(*"+srvT+").PeerID: returns opaque.PeerID", instrPos(ret), 1, "", "", "")
+			r1.Check(isLoadOfField(opT+".PeerID")(strip2(ret.(*ssa.Return).Results[0])), "(*"+srvT+").PeerID: returns opaque.PeerID", instrPos(ret), 1, "", "", "")
 		}
 	}
 
@@ -377,7 +377,7 @@ func checkC19(c *Ctx, r *Report) {
 			w1, n1 := (&Cut{Fn: cr, Target: isInstr(st), EdgeCut: edgeNil(isCallResult(0, cvsK), true)}).Run(c)
 			w2, n2 := (&Cut{Fn: cr, Target: isInstr(st), EdgeCut: edgeCmp(func(b *ssa.BinOp) bool {
 				k, ok := constInt(b.Y)
-				return ok && b.Op == token.EQL && (k == stDone || k == stWait) && isLoadOfField(cliT + ".state")(strip2(b.X))
+				return ok && b.Op == token.EQL && (k == stDone || k == stWait) && isLoadOfField(cliT+".state")(strip2(b.X))
 			}, true)}).Run(c)
 			r4.Check(w1 == "" || w2 == "", "client Run: state = authenticated only past verifySig==nil or from an authenticated state", instrPos(st), n1+n2, "",
 				"the client can reach a state in which it reports the server's peer ID without having verified the server's signature", w1)
@@ -388,7 +388,7 @@ func checkC19(c *Ctx, r *Report) {
 	}
 	if cv := r4.need(cvsK); cv != nil {
 		calls := callsIn(cv, hsP+".verifySig")
-		r4.Check(len(calls) == 1 && isLoadOfField(cliT + ".serverPubKey")(strip2(calls[0].Common().Args[0])), cvsK+": verifies under h.serverPubKey", cv.Pos(), 1, "", "", "")
+		r4.Check(len(calls) == 1 && isLoadOfField(cliT+".serverPubKey")(strip2(calls[0].Common().Args[0])), cvsK+": verifies under h.serverPubKey", cv.Pos(), 1, "", "", "")
 		for _, ret := range returnsOf(cv) {
 			v := retVal(ret, 0)
 			if isNilConst(v) {
@@ -403,7 +403,7 @@ func checkC19(c *Ctx, r *Report) {
 	if ph := r4.need("(*" + cliT + ").ParseHeader"); ph != nil {
 		for _, st := range findInstrs(ph, fieldWritePred(cliT+".serverPeerID")) {
 			ci := isResultOfCall(st.(*ssa.Store).Val, 0, idFromK)
-			r4.Check(ci != nil && isLoadOfField(cliT + ".serverPubKey")(strip2(ci.Common().Args[0])), "client ParseHeader: serverPeerID = IDFromPublicKey(serverPubKey)", instrPos(st), 1, "", "", "")
+			r4.Check(ci != nil && isLoadOfField(cliT+".serverPubKey")(strip2(ci.Common().Args[0])), "client ParseHeader: serverPeerID = IDFromPublicKey(serverPubKey)", instrPos(st), 1, "", "", "")
 		}
 	}
 	if pid := r4.need("(*" + cliT + ").PeerID"); pid != nil {
@@ -416,7 +416,7 @@ func checkC19(c *Ctx, r *Report) {
 		}
 		r4.guard(pid, "return a peer ID", idRets, "state in {Done, WaitingForBearer}", edgeCmp(func(b *ssa.BinOp) bool {
 			k, ok := constInt(b.Y)
-			return ok && b.Op == token.EQL && (k == stDone || k == stWait) && isLoadOfField(cliT + ".state")(strip2(b.X))
+			return ok && b.Op == token.EQL && (k == stDone || k == stWait) && isLoadOfField(cliT+".state")(strip2(b.X))
 		}, true), nil)
 	}
 
@@ -457,7 +457,7 @@ func checkC19(c *Ctx, r *Report) {
 			// in NoTLS mode the validator must exist and accept
 			var noTLS ssa.Value
 			allInstrs(sh, func(in ssa.Instruction) {
-				if v, ok := in.(ssa.Value); ok && isLoadOfField(authP + ".ServerPeerIDAuth.NoTLS")(v) {
+				if v, ok := in.(ssa.Value); ok && isLoadOfField(authP+".ServerPeerIDAuth.NoTLS")(v) {
 					noTLS = v
 				}
 			})
@@ -494,7 +494,7 @@ func checkC19(c *Ctx, r *Report) {
 					if ci, _ := resultOf(l); ci != nil && ci.Common().StaticCallee() != nil && ci.Common().StaticCallee().Pkg != nil && ci.Common().StaticCallee().Pkg.Pkg.Path() == Mod+authP {
 						continue // result of another function of this package (checked itself)
 					}
-					if isLoadOfField(authP + ".tokenInfo.peerID")(strip2(l)) || derivesFrom(l, func(x ssa.Value) bool { f, _ := loadOfField(x); return f != nil && f.Name() == "peerID" }) {
+					if isLoadOfField(authP+".tokenInfo.peerID")(strip2(l)) || derivesFrom(l, func(x ssa.Value) bool { f, _ := loadOfField(x); return f != nil && f.Name() == "peerID" }) {
 						continue // cached (token, peer) pair stored after a completed handshake (checked below)
 					}
 					okSrc = false
